@@ -3,7 +3,7 @@
 
 use super::c05_oracle::{Book, Expect, pat_fill};
 use super::c05_peers::*;
-use super::{ConnOut, Cx, MedEvidence, Op, ScenarioOut, WINDOW, med_split, med_sums, path_of, path_of_op, pick_len, size_class};
+use super::{ConnOut, Cx, MedEvidence, Op, ScenarioOut, WINDOW, med_split, med_sums, path_of, path_of_op, pick_len, size_class, u8_array_prefix};
 use crate::common::*;
 use serde_json::json;
 use std::sync::Arc;
@@ -11,28 +11,46 @@ use std::sync::atomic::Ordering::SeqCst;
 use std::time::Duration;
 
 fn expect_of(op: &Op) -> Expect {
-    Expect { token: op.token, kind: if op.notify { "client notify" } else { "client call request" }, notify: op.notify as u8, query: path_of_op(op).into_bytes(), body_len: op.len, fixed_id: None }
+    let typed = op.api == 1;
+    Expect {
+        token: op.token,
+        kind: if op.notify { "client notify" } else if typed { "client call_typed_slice request" } else { "client call request" },
+        notify: op.notify as u8,
+        query: path_of_op(op).into_bytes(),
+        body_len: op.len,
+        fixed_id: None,
+        body_prefix: if typed { u8_array_prefix(op.len) } else { vec![] },
+        body_format: if typed { 1 } else { 0 },
+    }
 }
 
 fn frame_len(op: &Op) -> u64 {
-    (48 + path_of_op(op).len() + op.len) as u64
+    (48 + path_of_op(op).len() + op.len + if op.api == 1 { u8_array_prefix(op.len).len() } else { 0 }) as u64
+}
+
+/// Calls (never notifies) go out through the bulk typed-slice entry point for every third token; WebSocket clients have none.
+fn api_for(token: u64, notify: bool) -> u8 {
+    (!notify && token % 3 == 0) as u8
 }
 
 struct Gen {
     next: u64,
+    /// false for WebSocket clients, which have no bulk typed-slice entry point
+    typed: bool,
 }
 impl Gen {
     fn new(rng: &mut Rng) -> Gen {
-        Gen { next: (rng.next_u64() >> 24) << 8 }
+        Gen { next: (rng.next_u64() >> 24) << 8, typed: true }
     }
     fn op(&mut self, notify: bool, len: usize) -> Op {
         self.next += 1;
-        Op { token: self.next, notify, len, qpad: 0 }
+        Op { token: self.next, notify, len, qpad: 0, api: if self.typed { api_for(self.next, notify) } else { 0 } }
     }
     fn sized(&mut self, rng: &mut Rng, left: &mut usize, thorough: bool) -> Op {
         self.next += 1;
         let qlen = path_of(self.next).len();
-        Op { token: self.next, notify: rng.chance(3, 5), len: pick_len(rng, qlen, left, thorough), qpad: 0 }
+        let notify = rng.chance(3, 5);
+        Op { token: self.next, notify, len: pick_len(rng, qlen, left, thorough), qpad: 0, api: if self.typed { api_for(self.next, notify) } else { 0 } }
     }
 }
 
@@ -59,6 +77,12 @@ fn run_op_blocking(c: &repe::Client, op: &Op, call_timeout: Duration) -> Result<
     let path = path_of_op(op);
     if op.notify {
         c.notify_with_formats(&path, 1, Some(&body), 0).map_err(|e| e.to_string())
+    } else if op.api == 1 {
+        // the capture peer's reply is not a typed array: a decode error after the reply arrived is still a delivered request
+        match c.call_typed_slice_with_timeout::<_, u8, u8>(&path, &body, call_timeout) {
+            Ok(_) | Err(repe::RepeError::Beve(_)) | Err(repe::RepeError::Json(_)) | Err(repe::RepeError::UnknownEnumValue(_)) => Ok(()),
+            Err(e) => Err(e.to_string()),
+        }
     } else {
         c.call_with_formats_and_timeout(&path, 1, Some(&body), 0, call_timeout).map(|_| ()).map_err(|e| e.to_string())
     }
@@ -274,6 +298,10 @@ impl AClient {
         let path = path_of_op(op);
         match (self, op.notify) {
             (AClient::Tcp(c), true) => c.notify_with_formats(&path, 1, Some(&body), 0).await.map_err(|e| e.to_string()),
+            (AClient::Tcp(c), false) if op.api == 1 => match c.call_typed_slice_with_timeout::<_, u8, u8>(&path, &body, call_timeout).await {
+                Ok(_) | Err(repe::RepeError::Beve(_)) | Err(repe::RepeError::Json(_)) | Err(repe::RepeError::UnknownEnumValue(_)) => Ok(()),
+                Err(e) => Err(e.to_string()),
+            },
             (AClient::Tcp(c), false) => c.call_with_formats_and_timeout(&path, 1, Some(&body), 0, call_timeout).await.map(|_| ()).map_err(|e| e.to_string()),
             (AClient::Ws(c), true) => c.notify_with_formats(&path, 1, Some(&body), 0).await.map_err(|e| e.to_string()),
             (AClient::Ws(c), false) => c.call_with_formats_and_timeout(&path, 1, Some(&body), 0, call_timeout).await.map(|_| ()).map_err(|e| e.to_string()),
@@ -289,6 +317,7 @@ pub fn aclient_concurrent(cx: &Cx, rng: &mut Rng, kind: AKind, stall: bool, forc
     let ep = ep_name(kind);
     let mut out = ScenarioOut::new(ep, if stall { "stall" } else { "none" }, &format!("{ep}.{}", if stall { "stall" } else { "healthy" }));
     let mut g = Gen::new(rng);
+    g.typed = kind != AKind::Ws;
     let writers = force_writers.unwrap_or(1 + rng.usize_below(32));
     let ws = gen_writers(rng, &mut g, writers, cx.thorough);
     let total: u64 = ws.iter().flatten().map(frame_len).sum();
@@ -360,6 +389,7 @@ pub fn aclient_cancel(cx: &Cx, rng: &mut Rng, kind: AKind) -> ScenarioOut {
     let ep = ep_name(kind);
     let mut out = ScenarioOut::new(ep, "cancel_mid_send", &format!("{ep}.cancel_mid_send"));
     let mut g = Gen::new(rng);
+    g.typed = kind != AKind::Ws;
     let rcvbuf = *rng.pick(&[32768usize, 65536, 131072]);
     // the client's own send buffer autotunes up to tcp_wmem max (4 MiB by default): the interrupted payload must exceed it
     let big_len = if cx.thorough { *rng.pick(&[12usize << 20, 16 << 20, 32 << 20]) } else { *rng.pick(&[12usize << 20, 16 << 20]) } + rng.usize_below(3) - 1;
@@ -510,7 +540,7 @@ impl Gen {
         let base = path_of(self.next).len();
         let (q, b) = med_split(rng, sum, base);
         // one padding byte is not expressible ("/" + n-1 bytes, n >= 1 is fine; 0 = none)
-        Op { token: self.next, notify: true, len: b, qpad: q - base }
+        Op { token: self.next, notify: true, len: b, qpad: q - base, api: 0 }
     }
 }
 
@@ -679,6 +709,7 @@ pub fn aclient_medium_stream(cx: &Cx, rng: &mut Rng, kind: AKind) -> ScenarioOut
     let ep = ep_name(kind);
     let mut out = ScenarioOut::new(ep, "cancel_mid_send", &format!("{ep}.cancel_mid_send.medium_stream"));
     let mut g = Gen::new(rng);
+    g.typed = kind != AKind::Ws;
     let rcvbuf = *rng.pick(&[32768usize, 65536, 131072]);
     let variant_abort = rng.coin();
     let t_ms = rng.range(70, 160);
